@@ -1158,14 +1158,19 @@ pub fn gen_trace(rng: &mut Rng, prop: &str, thorough: bool) -> SerdeTrace {
         _ => (rng.range(1, max_dim), rng.range(1, max_dim)),
     };
     // very rarely a really large array of plain numbers (buffer-size thresholds in a (de)serialiser)
-    if elem == ElemTy::U32 && rng.chance(1, if thorough { 400 } else { 1500 }) {
+    let huge = elem == ElemTy::U32 && rng.chance(1, if thorough { 400 } else { 1500 });
+    if huge {
         cols = rng.range(100, 190);
         rows = rng.range(100, 190);
     }
     let build = rng.below(4) as u8;
     let salt = rng.below(1000) as u32;
     let mut source = Source::Owned;
-    if prop == "C18" && elem == ElemTy::U32 && rng.chance(1, 3) {
+    if prop == "C18" && huge && rng.chance(1, 2) {
+        // a view that keeps (almost) all of a very large array
+        let w = Win { start: (rng.below(3), rng.below(3)), end: (cols - rng.below(3), rows - rng.below(3)) };
+        source = if rng.chance(1, 2) { Source::View(w) } else { Source::ViewMut(w) };
+    } else if prop == "C18" && elem == ElemTy::U32 && rng.chance(1, 3) {
         // windows exclude the zero-extent placements for which the unclaimed C03 is known to fail
         let c0 = rng.below(cols + 1);
         let c1 = rng.range(c0, cols);
